@@ -395,6 +395,13 @@ def check_call_sites(ctx: Ctx, aspects) -> None:
                             seq.extend(list(next(iter(names))))
                         else:
                             seq.append(("inconsistent", False))
+                            # a trigger that is skipped because the runner has no logger: hooks do not depend on logging
+                            for ip in e.paths:
+                                if not [c for c in calls(ip) if c.name.startswith("_trigger_event_")] and ip.exit[0] != "raise":
+                                    lg = [pol for c, pol, _ in ip.conds if key(strip_ver(c)) == "(self.logger is None)"]
+                                    others = [c for c, pol, _ in ip.conds if key(strip_ver(c)) != "(self.logger is None)"]
+                                    if lg and lg[-1] and not others:
+                                        ctx.violated(h, e.node, "step hooks are dispatched whether or not the runner writes logs", "the trigger is called on the path without a logger as well", "the pass over the markets leaves without calling the step trigger when self.logger is None")
                     elif e.kind == "call" and e.name == "_update_markets":
                         seq.append(("order-phase", True))
                     elif e.kind == "call" and e.name == "_update_times_on_markets":
